@@ -4,3 +4,6 @@ import Rp2.Props.C10
 #print axioms Rp2.C10.model_window_is_filter
 #print axioms Rp2.C10.model_from_date_only_hides
 #print axioms Rp2.C10.source_iterator_is_window
+#print axioms Rp2.C10.model_yearly_lines_of_window
+#print axioms Rp2.C10.model_yearly_lines_depend_on_from_year_only
+#print axioms Rp2.C10.source_iterator_yields_the_reported_tables
